@@ -9,7 +9,7 @@ from typing import Dict, List, Optional, Tuple
 from ..cfg import CFG, EXIT
 from ..core import Ctx
 from ..model import AnalysisError, FuncInfo, dotted, kwarg, norm, walk_no_nested
-from .common import assigned_value, enclosing, expand_locals, prog, resolve_local, stores_to
+from .common import assigned_value, enclosing, expand_locals, flat_subscript, prog, resolve_local, stores_to, view_env
 
 INF = float("inf")
 
@@ -713,17 +713,24 @@ def check_arrays_continuum(ctx: Ctx, rule: str):
     inner = [L for L in O.body if isinstance(L, ast.For)]
     ok_rows = False
     arr = None
-    if len(inner) == 1 and isinstance(inner[0].iter, ast.Call) and dotted(inner[0].iter.func) == "enumerate" and \
-            norm(inner[0].iter.args[0]) == units and isinstance(inner[0].target, ast.Tuple):
-        ri, uv = norm(inner[0].target.elts[0]), norm(inner[0].target.elts[1])
+    if len(inner) == 1:
+        # row r of the array is written from the r-th unit of the set: `for r, u in enumerate(units): arr[r][k] = f(u)` or
+        # `for row, u in zip(arr, units): row[k] = f(u)` - in both the store's row index is the position of the unit it reads
+        venv = view_env(f.node)
         sts = [s for s in inner[0].body if isinstance(s, ast.Assign) and isinstance(s.targets[0], ast.Subscript)]
-        arrs = {norm(s.targets[0].value.value) if isinstance(s.targets[0].value, ast.Subscript) else norm(s.targets[0].value) for s in sts}
-        rows = {norm(s.targets[0].value.slice) if isinstance(s.targets[0].value, ast.Subscript) else norm(s.targets[0].slice.elts[0]) for s in sts
-                if isinstance(s.targets[0].value, ast.Subscript) or isinstance(s.targets[0].slice, ast.Tuple)}
-        if len(arrs) == 1 and rows == {ri}:
-            arr = next(iter(arrs))
+        flats = [flat_subscript(s.targets[0], venv) for s in sts]
+        unit_vars = [x.id for x in ast.walk(inner[0].target) if isinstance(x, ast.Name) and x.id in venv]
+        upos = None
+        for uvn in unit_vars:
+            fu = flat_subscript(ast.Name(id=uvn, ctx=ast.Load()), venv)
+            if fu is not None and fu[0] == units and len(fu[1]) == 1:
+                upos = fu[1][0]
+        if sts and all(fl is not None and len(fl[1]) == 2 for fl in flats) and len({fl[0] for fl in flats}) == 1 and upos is not None \
+                and {fl[1][0] for fl in flats} == {upos}:
+            arr = flats[0][0]
             adef = [s for s in O.body if isinstance(s, ast.Assign) and norm(s.targets[0]) == arr and isinstance(s.value, ast.Call)]
-            ok_rows = len(adef) == 1 and isinstance(adef[0].value.args[0], ast.Tuple) and norm(adef[0].value.args[0].elts[0]) == f"len({units})"
+            ok_rows = len(adef) == 1 and adef[0].value.args and isinstance(adef[0].value.args[0], ast.Tuple) and \
+                norm(expand_locals(f.node, adef[0].value.args[0].elts[0])) == f"len({units})"
     apps = [s for s in O.body if isinstance(s, ast.Expr) and isinstance(s.value, ast.Call) and isinstance(s.value.func, ast.Attribute)
             and s.value.func.attr == "append" and arr is not None and norm(s.value.args[0]) == arr]
     rets = [r for r in walk_no_nested(f.node) if isinstance(r, ast.Return)]
